@@ -1,178 +1,188 @@
-(* C09 -- /proc/diskstats: per-device exactness for every layout, totals over whole disks only *)
-From PV Require Import C09.Spec C09.Lib.
+(* C09 -- /proc/diskstats: per-device exactness for every layout, totals over the /sys/block
+   entries only, no double counting *)
+From PV Require Import C09.Spec C09.TextLemmas C09.Lib.
 
 Definition tup_disk (s : diskstat) : list Z :=
   [read_count s; write_count s; read_bytes s; write_bytes s; read_time s; write_time s;
    read_merged_count s; write_merged_count s; busy_time s].
 
 (* ------------------------------------------------ shape of a printed line *)
-Definition items_of (d : kdisk) : list (nat * bytes) :=
+Definition pre_items (d : kdisk) : list (nat * bytes) :=
   match d_lay d with
-  | LFull s extra => cols [(7, d_minor d)]%nat ++ zero_w (d_name d :: iostat_list s ++ extra)
-  | L24 blocks s => cols [(4, d_minor d); (10, blocks)]%nat ++ zero_w (d_name d :: iostat_list s)
-  | LPart a b c e => cols [(7, d_minor d)]%nat ++ zero_w [d_name d; a; b; c; e]
+  | L24 blocks _ => cols [(4, d_minor d); (10, blocks)]%nat
+  | _ => cols [(7, d_minor d)]%nat
+  end.
+Definition post_toks (d : kdisk) : list bytes :=
+  match d_lay d with
+  | LFull s extra => iostat_list s ++ extra
+  | L24 _ s => iostat_list s
+  | LPart a b c e => [a; b; c; e]
   end.
 Definition lead (d : kdisk) : bytes := match d_lay d with L24 _ _ => [32] | _ => [] end.
-Definition toks (d : kdisk) : list bytes :=
-  d_minor d ::
-  match d_lay d with
-  | LFull s extra => d_name d :: iostat_list s ++ extra
-  | L24 blocks s => blocks :: d_name d :: iostat_list s
-  | LPart a b c e => [d_name d; a; b; c; e]
-  end.
+(* the line, with the name as [nm] *)
+Definition line_with (d : kdisk) (nm : list Z) : list Z :=
+  (pad 4 (d_major d) ++ lead d ++ sp_items (pre_items d ++ (O, nm) :: zero_w (post_toks d))) ++ [10].
+(* its tokens *)
+Definition toks (d : kdisk) : list text :=
+  map snd (pre_items d) ++ dec (d_name d) :: post_toks d.
 
-Lemma disk_line_shape d :
-  k_disk_line d = (pad 4 (d_major d) ++ lead d ++ sp_items (items_of d)) ++ [10].
+Lemma disk_line_shape d : k_disk_line d = line_with d (d_name d).
 Proof.
-  unfold k_disk_line, items_of, lead. destruct (d_lay d); rewrite <- !app_assoc; reflexivity.
-Qed.
-
-Lemma toks_items d : map snd (items_of d) = toks d.
-Proof.
-  unfold items_of, toks. destruct (d_lay d); rewrite map_app, map_snd_cols, map_snd_zero_w; reflexivity.
-Qed.
-
-Lemma dec_name_ok t : is_dec t = true -> name_ok t = true.
-Proof.
-  intros H. destruct t as [|c t]; [discriminate|]. unfold name_ok.
-  exact (forallb_imp _ _ _ digit_graph H).
+  unfold k_disk_line, line_with, pre_items, post_toks, lead.
+  destruct (d_lay d); rewrite <- !app_assoc; reflexivity.
 Qed.
 
 Lemma wf_disk_inv d :
   wf_disk d = true ->
-  is_dec (d_major d) = true /\ is_dec (d_minor d) = true /\ name_ok (d_name d) = true
+  is_dec (d_major d) = true /\ is_dec (d_minor d) = true /\ utok_ok (dec (d_name d)) = true
   /\ forallb is_dec (lay_fields (d_lay d)) = true /\ lay_ok (d_lay d) = true.
 Proof.
-  unfold wf_disk. intros H.
+  unfold wf_disk, disk_name_ok. intros H.
   apply andb_true_iff in H as [H H5]. apply andb_true_iff in H as [H H4].
   apply andb_true_iff in H as [H H3]. apply andb_true_iff in H as [H1 H2]. auto.
 Qed.
 
-Lemma toks_ok d : wf_disk d = true -> forallb name_ok (toks d) = true.
+Lemma pre_post_dec d :
+  wf_disk d = true ->
+  forallb is_dec (map snd (pre_items d)) = true /\ forallb is_dec (post_toks d) = true.
 Proof.
-  intros H. destruct (wf_disk_inv d H) as (_ & Hmi & Hn & Hf & _).
-  pose proof (forallb_imp _ _ _ dec_name_ok Hf) as Hf'.
-  unfold toks. cbn [forallb]. rewrite (dec_name_ok _ Hmi). cbn [andb].
-  destruct (d_lay d) as [s extra|blocks s|a b c e]; cbn [lay_fields forallb] in Hf' |- *.
-  - now rewrite Hn.
-  - apply andb_true_iff in Hf' as [Hb Hs]. now rewrite Hb, Hn.
-  - now rewrite Hn.
+  intros H. destruct (wf_disk_inv d H) as (_ & Hmi & _ & Hf & _).
+  unfold pre_items, post_toks.
+  destruct (d_lay d) as [s extra|blocks s|a b c e]; cbn [lay_fields] in Hf;
+    rewrite map_snd_cols; cbn [map snd forallb]; rewrite Hmi; cbn [andb].
+  - auto.
+  - cbn [forallb] in Hf. apply andb_true_iff in Hf as [Hb Hs]. now rewrite Hb.
+  - auto.
+Qed.
+
+Lemma toks_ok d : wf_disk d = true -> forallb utok_ok (toks d) = true.
+Proof.
+  intros H. destruct (wf_disk_inv d H) as (_ & _ & Hn & _). destruct (pre_post_dec d H) as [H1 H2].
+  unfold toks. rewrite forallb_app. cbn [forallb]. now rewrite (decs_utok _ H1), Hn, (decs_utok _ H2).
+Qed.
+
+Lemma toks_items d nm :
+  map snd (pre_items d ++ (O, nm) :: zero_w (post_toks d)) = map snd (pre_items d) ++ nm :: post_toks d.
+Proof. rewrite map_app. cbn [map snd]. now rewrite map_snd_zero_w. Qed.
+
+Lemma lead_ascii d : forallb is_ascii (lead d) = true.
+Proof. unfold lead. destruct (d_lay d); reflexivity. Qed.
+
+(* the decoded line: same shape, name decoded *)
+Lemma dec_disk_line d : wf_disk d = true -> dec (k_disk_line d) = line_with d (dec (d_name d)).
+Proof.
+  intros H. destruct (wf_disk_inv d H) as (Hma & _). destruct (pre_post_dec d H) as [H1 H2].
+  rewrite disk_line_shape. unfold line_with.
+  rewrite !sp_items_app, !sp_items_cons. cbn [fst snd repeat]. rewrite <- !app_assoc. cbn [app].
+  set (tail := sp_items (zero_w (post_toks d)) ++ [10]).
+  assert (Ta : forallb is_ascii tail = true).
+  { unfold tail. rewrite forallb_app. rewrite forallb_sp_items; [reflexivity|reflexivity|].
+    rewrite map_snd_zero_w. exact (decs_all _ _ digit_ascii H2). }
+  assert (Tn : tail <> []) by (unfold tail; destruct (sp_items (zero_w (post_toks d))); discriminate).
+  rewrite dec_ascii_app by (apply forallb_pad; [reflexivity|exact (dec_all _ _ digit_ascii Hma)]).
+  rewrite dec_ascii_app by (apply lead_ascii).
+  rewrite dec_ascii_app by (apply forallb_sp_items; [reflexivity|exact (decs_all _ _ digit_ascii H1)]).
+  rewrite dec_ascii_cons by lia.
+  now rewrite (dec_app_ascii_tail _ tail Tn Ta).
 Qed.
 
 Lemma lead_ws d X :
-  starts_ws X = true -> starts_ws (lead d ++ X) = true /\ split_ws (lead d ++ X) = split_ws X.
+  ustarts X = true -> ustarts (lead d ++ X) = true /\ usplit (lead d ++ X) = usplit X.
 Proof. intros H. unfold lead. destruct (d_lay d); cbn [app]; auto. Qed.
 
-Lemma split_disk_line d : wf_disk d = true -> split_ws (k_disk_line d) = d_major d :: toks d.
+Lemma split_disk_line d :
+  wf_disk d = true -> usplit (line_with d (dec (d_name d))) = d_major d :: toks d.
 Proof.
   intros H. destruct (wf_disk_inv d H) as (Hma & _).
   pose proof (toks_ok d H) as Ht.
-  rewrite disk_line_shape. unfold pad. rewrite <- !app_assoc. rewrite split_ws_repeat.
-  assert (S1 : starts_ws (sp_items (items_of d) ++ [10]) = true) by (now apply starts_ws_sp_items).
+  unfold line_with, pad. rewrite <- !app_assoc. rewrite usplit_repeat.
+  set (items := pre_items d ++ (O, dec (d_name d)) :: zero_w (post_toks d)).
+  assert (S1 : ustarts (sp_items items ++ [10]) = true) by (now apply ustarts_sp_items).
   destruct (lead_ws d _ S1) as [S2 E2].
-  rewrite split_ws_tok_app; [|now apply is_dec_tok_ok|exact S2].
-  rewrite E2. rewrite split_ws_sp_items; [|rewrite toks_items|reflexivity].
-  - rewrite toks_items. change (split_ws [10]) with (@nil bytes). now rewrite app_nil_r.
-  - exact (forallb_imp _ _ _ name_tok_ok Ht).
+  rewrite usplit_tok_app; [|now apply is_dec_utok|exact S2].
+  rewrite E2. unfold items. rewrite usplit_sp_items; [|rewrite toks_items; exact Ht|reflexivity].
+  rewrite toks_items. change (usplit [10]) with (@nil text). now rewrite app_nil_r.
 Qed.
 
-Lemma disk_body_all P d :
-  P 32 = true -> (forall c, is_graph c = true -> P c = true) -> wf_disk d = true ->
-  forallb P (pad 4 (d_major d) ++ lead d ++ sp_items (items_of d)) = true.
+Lemma line_no_break b d :
+  b = 10 \/ b = 13 -> wf_disk d = true ->
+  contains b (pad 4 (d_major d) ++ lead d
+              ++ sp_items (pre_items d ++ (O, dec (d_name d)) :: zero_w (post_toks d))) = false.
 Proof.
-  intros H32 Hg H. destruct (wf_disk_inv d H) as (Hma & _).
+  intros Hb H. destruct (wf_disk_inv d H) as (Hma & _).
   pose proof (toks_ok d H) as Ht.
-  assert (G : forall t, name_ok t = true -> forallb P t = true).
-  { intros t Hn. apply name_ok_inv in Hn as [_ Hn]. exact (forallb_imp _ _ _ Hg Hn). }
-  rewrite !forallb_app. rewrite forallb_pad; [|exact H32|apply G; now apply dec_name_ok].
-  assert (forallb P (lead d) = true) as -> by (unfold lead; destruct (d_lay d); cbn [forallb]; now rewrite ?H32).
-  rewrite forallb_sp_items; [reflexivity|exact H32|]. rewrite toks_items.
-  exact (forallb_imp _ _ _ G Ht).
+  assert (Hu : is_uws b = true) by (destruct Hb; subst; reflexivity).
+  assert (H32 : (b =? 32) = false) by (destruct Hb; subst; reflexivity).
+  rewrite !contains_app. unfold pad. rewrite contains_app, contains_repeat by exact H32.
+  rewrite (utok_contains b _ Hu (is_dec_utok _ Hma)).
+  assert (contains b (lead d) = false) as ->.
+  { unfold lead. destruct (d_lay d); try reflexivity. cbn [contains existsb]. now rewrite H32. }
+  cbn [orb]. apply contains_sp_items; [exact H32|].
+  rewrite toks_items. intros t Hin. apply (utok_contains b t Hu).
+  rewrite forallb_forall in Ht. now apply Ht.
 Qed.
 
 Lemma lines_diskstats l :
-  forallb wf_disk l = true -> lines_keep (k_diskstats l) = map k_disk_line l.
+  forallb wf_disk l = true ->
+  lines_keep (text_of (k_diskstats l)) = map (fun d => line_with d (dec (d_name d))) l.
 Proof.
-  intros Hwf. unfold k_diskstats. apply lines_keep_concat.
-  intros x Hin. apply in_map_iff in Hin as [d [<- Hd]].
-  assert (Hw : wf_disk d = true) by (rewrite forallb_forall in Hwf; now apply Hwf).
-  rewrite disk_line_shape. eexists. split; [reflexivity|].
-  apply contains_false_forallb. apply disk_body_all; auto.
-  intros c Hc. unfold is_graph in Hc. lia.
-Qed.
-
-Lemma forallb_concat {A} (P : A -> bool) ls :
-  (forall l, In l ls -> forallb P l = true) -> forallb P (concat ls) = true.
-Proof.
-  induction ls as [|l ls IH]; intros H; [reflexivity|]. cbn [concat]. rewrite forallb_app.
-  rewrite (H l (or_introl eq_refl)). apply IH. intros x Hx. apply H. now right.
-Qed.
-
-Lemma ascii_diskstats l : forallb wf_disk l = true -> ascii_ok (k_diskstats l) = true.
-Proof.
-  intros Hwf. unfold k_diskstats, ascii_ok. apply forallb_concat.
-  intros x Hin. apply in_map_iff in Hin as [d [<- Hd]].
-  assert (Hw : wf_disk d = true) by (rewrite forallb_forall in Hwf; now apply Hwf).
-  rewrite disk_line_shape, forallb_app. rewrite disk_body_all; auto.
-  intros c Hc. unfold is_graph in Hc. unfold ascii_ok_byte. lia.
+  intros Hwf. unfold k_diskstats. rewrite forallb_forall in Hwf. apply text_lines.
+  - intros x Hin. apply in_map_iff in Hin as [d [<- Hd]]. rewrite disk_line_shape. unfold line_with. eauto.
+  - rewrite map_map. apply map_ext_in. intros d Hd. apply dec_disk_line. now apply Hwf.
+  - intros t Hin. apply in_map_iff in Hin as [d [<- Hd]]. unfold line_with. eexists. split; [reflexivity|].
+    split; apply line_no_break; auto.
 Qed.
 
 (* ------------------------------------------------ what the code reads from one line *)
 Definition raw_entry (d : kdisk) : dentry :=
   match d_lay d with
   | LFull s _ =>
-    {| e_name := d_name d; e_reads := dec_val (rd_ios s); e_writes := dec_val (wr_ios s);
+    {| e_name := dec (d_name d); e_reads := dec_val (rd_ios s); e_writes := dec_val (wr_ios s);
        e_rbytes := dec_val (rd_sectors s); e_wbytes := dec_val (wr_sectors s);
        e_rtime := dec_val (rd_ticks s); e_wtime := dec_val (wr_ticks s);
        e_rmerged := dec_val (rd_merges s); e_wmerged := dec_val (wr_merges s);
        e_busy := dec_val (io_ticks s) |}
   | L24 blocks s =>
-    {| e_name := d_name d; e_reads := dec_val blocks; e_writes := dec_val (rd_ticks s);
+    {| e_name := dec (d_name d); e_reads := dec_val blocks; e_writes := dec_val (rd_ticks s);
        e_rbytes := dec_val (rd_merges s); e_wbytes := dec_val (wr_merges s);
        e_rtime := dec_val (rd_sectors s); e_wtime := dec_val (wr_sectors s);
        e_rmerged := dec_val (rd_ios s); e_wmerged := dec_val (wr_ios s);
        e_busy := dec_val (in_flight s) |}
   | LPart a b c e =>
-    {| e_name := d_name d; e_reads := dec_val a; e_writes := dec_val c;
+    {| e_name := dec (d_name d); e_reads := dec_val a; e_writes := dec_val c;
        e_rbytes := dec_val b; e_wbytes := dec_val e;
        e_rtime := 0; e_wtime := 0; e_rmerged := 0; e_wmerged := 0; e_busy := 0 |}
   end.
 
-Lemma py_int_dec t : is_dec t = true -> py_int t = Val (dec_val t).
-Proof. intros H. unfold py_int. now rewrite (parse_int_dec _ H). Qed.
-
-Lemma forallb_firstn {A} (P : A -> bool) n l : forallb P l = true -> forallb P (firstn n l) = true.
-Proof.
-  revert l. induction n as [|n IH]; intros l H; [reflexivity|]. destruct l as [|x l]; [reflexivity|].
-  cbn [forallb] in H. apply andb_true_iff in H as [H1 H2]. cbn [firstn forallb]. now rewrite H1, IH.
-Qed.
-
-Lemma disk_line_printed d : wf_disk d = true -> disk_line (k_disk_line d) = Val (raw_entry d).
+Lemma disk_line_printed d :
+  wf_disk d = true -> disk_line (line_with d (dec (d_name d))) = Val (raw_entry d).
 Proof.
   intros H. unfold disk_line. rewrite (split_disk_line d H). cbv zeta.
   destruct (wf_disk_inv d H) as (_ & _ & _ & Hf & Hlay).
-  unfold toks, raw_entry. destruct (d_lay d) as [s extra|blocks s|a b c e]; cbn [lay_fields] in Hf.
+  unfold toks, pre_items, post_toks, raw_entry.
+  destruct (d_lay d) as [s extra|blocks s|a b c e]; cbn [lay_fields] in Hf; rewrite map_snd_cols; cbn [map snd].
   - (* 14 fields, or 18 and more *)
     rewrite forallb_app in Hf. apply andb_true_iff in Hf as [Hs _]. unfold iostat_list in Hs.
     cbn [lay_ok] in Hlay.
     destruct extra as [|e1 [|e2 [|e3 [|e4 er]]]]; try discriminate Hlay;
       unfold iostat_list;
       cbn [app length Nat.eqb Nat.leb orb idx nth_error of_option obind slice Nat.sub skipn firstn];
-      rewrite (mapM_py_int_dec _ Hs); reflexivity.
+      rewrite (mapM_py_int_str_dec _ Hs); reflexivity.
   - (* 15 fields: Linux 2.4 *)
     cbn [forallb] in Hf. apply andb_true_iff in Hf as [Hb Hs].
     pose proof (forallb_firstn _ 10 _ Hs) as H10. unfold iostat_list in H10. cbn [firstn] in H10.
     unfold iostat_list.
     cbn [app length Nat.eqb Nat.leb orb idx nth_error of_option obind slice Nat.sub skipn firstn].
-    rewrite (py_int_dec _ Hb). cbn [obind].
-    rewrite (mapM_py_int_dec _ H10). reflexivity.
+    rewrite (py_int_str_dec _ Hb). cbn [obind].
+    rewrite (mapM_py_int_str_dec _ H10). reflexivity.
   - (* 7 fields: 2.6 partition *)
     cbn [app length Nat.eqb Nat.leb orb idx nth_error of_option obind slice Nat.sub skipn firstn].
-    rewrite (mapM_py_int_dec _ Hf). reflexivity.
+    rewrite (mapM_py_int_str_dec _ Hf). reflexivity.
 Qed.
 
 Lemma mapM_disk_lines l :
-  forallb wf_disk l = true -> mapM disk_line (map k_disk_line l) = Val (map raw_entry l).
+  forallb wf_disk l = true ->
+  mapM disk_line (map (fun d => line_with d (dec (d_name d))) l) = Val (map raw_entry l).
 Proof.
   induction l as [|d l IH]; intros H; [reflexivity|].
   cbn [forallb] in H. apply andb_true_iff in H as [Hd Hl].
@@ -180,11 +190,10 @@ Proof.
 Qed.
 
 (* ------------------------------------------------ the loop over entries *)
-Definition keep (perdisk : bool) (sb : bytes -> bool) (d : kdisk) : bool :=
-  perdisk || is_storage_device sb (d_name d).
-Definition disk_kv (d : kdisk) : bytes * list Z := (d_name d, tup_disk (model_view d)).
+Definition keep (perdisk : bool) (sb : text -> bool) (d : kdisk) : bool := perdisk || listed sb d.
+Definition disk_kv (d : kdisk) : text * list Z := (dec (d_name d), tup_disk (model_view d)).
 
-Lemma e_name_raw d : e_name (raw_entry d) = d_name d.
+Lemma e_name_raw d : e_name (raw_entry d) = dec (d_name d).
 Proof. unfold raw_entry. destruct (d_lay d); reflexivity. Qed.
 
 Lemma stored_raw d :
@@ -200,22 +209,12 @@ Lemma disk_fold perdisk sb l : forall acc,
 Proof.
   induction l as [|d l IH]; intros acc; [reflexivity|].
   cbn [map fold_left filter]. unfold disk_store at 2. rewrite e_name_raw, stored_raw. unfold keep at 1.
+  change (is_storage_device sb (dec (d_name d))) with (listed sb d).
   destruct perdisk; cbn [negb andb orb].
   - cbn [map fold_left disk_kv fst snd]. apply IH.
-  - destruct (is_storage_device sb (d_name d)); cbn [negb].
+  - destruct (listed sb d); cbn [negb].
     + cbn [map fold_left disk_kv fst snd]. apply IH.
     + apply IH.
-Qed.
-
-Lemma disk_raw_printed perdisk sb l :
-  wf_disks l = true ->
-  disk_raw perdisk sb (ProcDiskstats (k_diskstats l)) = Val (map disk_kv (filter (keep perdisk sb) l)).
-Proof.
-  unfold wf_disks. intros H. apply andb_true_iff in H as [Hwf Hnd].
-  unfold disk_raw. rewrite (ascii_diskstats l Hwf), (lines_diskstats l Hwf), (mapM_disk_lines l Hwf).
-  cbn [obind]. f_equal. rewrite disk_fold.
-  rewrite fold_dset_nodup; [reflexivity| |intros k _ []].
-  rewrite map_map. cbn [disk_kv fst]. apply NoDup_map_filter. now apply nodupb_NoDup.
 Qed.
 
 Lemma col_sums_disk l : l <> [] -> col_sums (map tup_disk l) = tup_disk (disk_sum l).
@@ -231,59 +230,172 @@ Proof.
     rewrite IH by discriminate. reflexivity.
 Qed.
 
-Lemma filter_ext_in' {A} (f g : A -> bool) l : (forall a, In a l -> f a = g a) -> filter f l = filter g l.
-Proof.
-  induction l as [|a l IH]; intros H; [reflexivity|]. cbn [filter].
-  rewrite (H a (or_introl eq_refl)), IH; [reflexivity|]. intros x Hx. apply H. now right.
-Qed.
-
-Lemma front_disk_answer (view : kdisk -> diskstat) (perdisk : bool) (l ws : list kdisk) :
-  ws = (if perdisk then l else filter d_whole l) ->
-  front sdiskio_fields perdisk (map (fun d => (d_name d, tup_disk (view d))) ws)
-  = Val (disks_answer view perdisk l).
+Lemma front_disk_answer (view : kdisk -> diskstat) (whole : kdisk -> bool) (perdisk : bool) (l ws : list kdisk) :
+  ws = (if perdisk then l else filter whole l) ->
+  front sdiskio_fields perdisk (map (fun d => (dec (d_name d), tup_disk (view d))) ws)
+  = Val (disks_answer view whole perdisk l).
 Proof.
   intros ->. unfold disks_answer. destruct perdisk.
-  - apply (front_per sdiskio_fields d_name (fun d => tup_disk (view d)) (fun d => nt_disk (view d))).
+  - apply (front_per sdiskio_fields (fun d => dec (d_name d)) (fun d => tup_disk (view d))
+                     (fun d => nt_disk (view d))).
     reflexivity.
-  - destruct (filter d_whole l) as [|w ws]; [reflexivity|].
-    apply (front_total sdiskio_fields d_name (fun d => tup_disk (view d))); [discriminate|].
+  - destruct (filter whole l) as [|w ws]; [reflexivity|].
+    apply (front_total sdiskio_fields (fun d => dec (d_name d)) (fun d => tup_disk (view d))); [discriminate|].
     rewrite <- (map_map view tup_disk). rewrite col_sums_disk by discriminate. reflexivity.
 Qed.
 
-(* the model, exactly, on every layout (the 2.4 layout through its shifted reading) *)
-Theorem disk_model_exact sb l perdisk :
-  wf_disks l = true -> perdisk = true \/ sysblock_agrees sb l = true ->
-  disk_io_counters perdisk sb (ProcDiskstats (k_diskstats l)) = Val (disks_answer model_view perdisk l).
+(* the loop and the front end, for any list of kernel devices whose entries were read *)
+Lemma loop_answer perdisk sb l :
+  NoDup (map (fun d => dec (d_name d)) l) ->
+  front sdiskio_fields perdisk (fold_left (disk_store perdisk sb) (map raw_entry l) [])
+  = Val (disks_answer model_view (listed sb) perdisk l).
 Proof.
-  intros Hwf Hsb. unfold disk_io_counters. rewrite (disk_raw_printed perdisk sb l Hwf). cbn [obind].
-  unfold disk_kv. apply front_disk_answer.
+  intros Hnd. rewrite disk_fold.
+  rewrite fold_dset_nodup; [|rewrite map_map; cbn [disk_kv fst]; now apply NoDup_map_filter|intros k _ []].
+  cbn [app]. unfold disk_kv. apply front_disk_answer.
   destruct perdisk.
   - apply filter_true. reflexivity.
-  - destruct Hsb as [Hsb|Hsb]; [discriminate|].
-    apply filter_ext_in'. intros d Hd. unfold keep, is_storage_device. cbn [orb].
-    unfold sysblock_agrees in Hsb. rewrite forallb_forall in Hsb.
-    apply Bool.eqb_prop. exact (Hsb d Hd).
+  - apply filter_ext_in'. reflexivity.
 Qed.
 
-Lemma answer_ext v1 v2 perdisk l :
-  (forall d, In d l -> v1 d = v2 d) -> disks_answer v1 perdisk l = disks_answer v2 perdisk l.
+(* the model, exactly, on every layout (the 2.4 layout through its shifted reading), for every
+   /sys/block content *)
+Theorem disk_model_exact sb l perdisk :
+  wf_disks l = true ->
+  disk_io_counters perdisk sb (ProcDiskstats (k_diskstats l))
+  = Val (disks_answer model_view (listed sb) perdisk l).
+Proof.
+  unfold wf_disks. intros H. apply andb_true_iff in H as [Hwf Hnd].
+  unfold disk_io_counters, disk_raw.
+  rewrite (lines_diskstats l Hwf), (mapM_disk_lines l Hwf). cbn [obind].
+  apply loop_answer. now apply nodupb_NoDup.
+Qed.
+
+Lemma answer_ext v1 v2 whole perdisk l :
+  (forall d, In d l -> v1 d = v2 d) -> disks_answer v1 whole perdisk l = disks_answer v2 whole perdisk l.
 Proof.
   intros H. unfold disks_answer. destruct perdisk.
   - f_equal. apply map_ext_in. intros d Hd. now rewrite (H d Hd).
-  - assert (E : map v1 (filter d_whole l) = map v2 (filter d_whole l)).
+  - assert (E : map v1 (filter whole l) = map v2 (filter whole l)).
     { apply map_ext_in. intros d Hd. apply filter_In in Hd as [Hd _]. now apply H. }
-    destruct (filter d_whole l) as [|w ws]; [reflexivity|]. now rewrite E.
+    destruct (filter whole l) as [|w ws]; [reflexivity|]. now rewrite E.
 Qed.
 
 Theorem disk_exact sb l perdisk :
-  wf_disks l = true -> no_l24 l = true -> perdisk = true \/ sysblock_agrees sb l = true ->
-  disk_io_counters perdisk sb (ProcDiskstats (k_diskstats l)) = Val (spec_disks perdisk l).
+  wf_disks l = true -> no_l24 l = true ->
+  disk_io_counters perdisk sb (ProcDiskstats (k_diskstats l)) = Val (spec_disks sb perdisk l).
 Proof.
-  intros Hwf H24 Hsb. rewrite (disk_model_exact sb l perdisk Hwf Hsb). f_equal.
+  intros Hwf H24. rewrite (disk_model_exact sb l perdisk Hwf). f_equal.
   unfold spec_disks. apply answer_ext. intros d Hd.
   unfold no_l24 in H24. rewrite forallb_forall in H24. specialize (H24 d Hd).
   unfold model_view, is_l24 in *. destruct (d_lay d); [reflexivity|discriminate|reflexivity].
 Qed.
+
+(* when the kernel's whole-disk flag and the /sys/block listing agree, "listed" is "whole disk" *)
+Lemma listed_whole sb l : sysblock_agrees sb l = true -> filter (listed sb) l = filter d_whole l.
+Proof.
+  intros H. apply filter_ext_in'. intros d Hd. unfold sysblock_agrees in H.
+  rewrite forallb_forall in H. apply Bool.eqb_prop. exact (H d Hd).
+Qed.
+
+(* ------------------------------------------------ no double counting *)
+Lemma linear_sum f l : linear f -> f (disk_sum l) = zsum (map f l).
+Proof.
+  intros [H0 Hadd]. induction l as [|x l IH]; [exact H0|].
+  cbn [disk_sum fold_right map zsum]. fold (disk_sum l). fold (zsum (map f l)). now rewrite Hadd, IH.
+Qed.
+
+Lemma zsum_map_add {A} (f g : A -> Z) l : zsum (map (fun x => f x + g x) l) = zsum (map f l) + zsum (map g l).
+Proof.
+  induction l as [|x l IH]; [reflexivity|]. cbn [map zsum fold_right] in *.
+  fold (zsum (map (fun x => f x + g x) l)). fold (zsum (map f l)). fold (zsum (map g l)). lia.
+Qed.
+
+Lemma zsum_map_ext {A} (f g : A -> Z) l : (forall x, In x l -> f x = g x) -> zsum (map f l) = zsum (map g l).
+Proof. intros H. f_equal. now apply map_ext_in. Qed.
+
+Lemma zsum_swap {A B} (h : A -> B -> Z) (ws : list A) (ps : list B) :
+  zsum (map (fun w => zsum (map (h w) ps)) ws) = zsum (map (fun p => zsum (map (fun w => h w p) ws)) ps).
+Proof.
+  induction ws as [|w ws IH].
+  - cbn [map zsum fold_right]. induction ps as [|p ps IHp]; [reflexivity|].
+    cbn [map zsum fold_right]. fold (zsum (map (fun _ : B => 0) ps)) in *.
+    change (zsum (map (fun p0 : B => zsum (map (fun w : A => h w p0) [])) ps)) with (zsum (map (fun _ : B => 0) ps)).
+    lia.
+  - cbn [map zsum fold_right]. fold (zsum (map (fun w0 => zsum (map (h w0) ps)) ws)). rewrite IH.
+    rewrite <- zsum_map_add. apply zsum_map_ext. intros p _. reflexivity.
+Qed.
+
+Lemma zsum_filter {A} (q : A -> bool) (f : A -> Z) l :
+  zsum (map f (filter q l)) = zsum (map (fun x => if q x then f x else 0) l).
+Proof.
+  induction l as [|x l IH]; [reflexivity|]. cbn [filter map zsum fold_right].
+  destruct (q x); cbn [map zsum fold_right]; fold (zsum (map f (filter q l))) in *;
+    fold (zsum (map (fun x0 => if q x0 then f x0 else 0) l)); lia.
+Qed.
+
+(* exactly one whole disk of the table carries a given name *)
+Lemma zsum_pick (ws : list kdisk) (key : bytes) (v : Z) (w0 : kdisk) :
+  NoDup (map d_name ws) -> In w0 ws -> d_name w0 = key ->
+  zsum (map (fun w => if beqb key (d_name w) then v else 0) ws) = v.
+Proof.
+  induction ws as [|w ws IH]; intros Hnd Hin Hk; [destruct Hin|].
+  cbn [map] in Hnd. inversion Hnd as [|x xs Hnin Hnd']; subst.
+  cbn [map zsum fold_right]. fold (zsum (map (fun w1 => if beqb (d_name w0) (d_name w1) then v else 0) ws)).
+  destruct Hin as [->|Hin].
+  - rewrite beqb_refl.
+    assert (zsum (map (fun w1 => if beqb (d_name w0) (d_name w1) then v else 0) ws) = 0) as ->; [|lia].
+    clear IH Hnd Hnd'. induction ws as [|w1 ws IHw]; [reflexivity|].
+    cbn [map zsum fold_right].
+    fold (zsum (map (fun w2 => if beqb (d_name w0) (d_name w2) then v else 0) ws)).
+    destruct (beqb (d_name w0) (d_name w1)) eqn:E.
+    + apply beqb_eq in E. exfalso. apply Hnin. rewrite E. now left.
+    + rewrite IHw; [reflexivity|]. intros Hn. apply Hnin. now right.
+  - destruct (beqb (d_name w0) (d_name w)) eqn:E.
+    + apply beqb_eq in E. exfalso. apply Hnin. rewrite <- E. apply in_map_iff. eauto.
+    + rewrite (IH Hnd' Hin eq_refl). lia.
+Qed.
+
+(* Σ over the /sys/block entries of the table = Σ of what was submitted to every device node:
+   nothing is counted twice, nothing is left out *)
+Theorem no_double_count_sum sb own parent fld l :
+  kernel_shaped sb own parent fld l ->
+  zsum (map fld (filter (listed sb) l)) = zsum (map own l).
+Proof.
+  intros (Hnd & Hpart & Hwhole).
+  set (W := filter (listed sb) l).
+  assert (HndW : NoDup (map d_name W)) by (unfold W; now apply NoDup_map_filter).
+  (* whole disks: own + shares of the partitions *)
+  rewrite (zsum_map_ext fld (fun w => own w + zsum (map (part_share sb own parent w) l)) W).
+  2:{ intros w Hw. unfold W in Hw. apply filter_In in Hw as [Hin Hl]. now apply Hwhole. }
+  rewrite zsum_map_add, zsum_swap.
+  (* each partition's share is taken by exactly one whole disk *)
+  rewrite (zsum_map_ext (fun p => zsum (map (fun w => part_share sb own parent w p) W))
+                        (fun p => if listed sb p then 0 else own p) l).
+  2:{ intros p Hp. unfold part_share. destruct (listed sb p) eqn:Lp; cbn [negb andb].
+      - clear. induction W as [|w W IH]; [reflexivity|]. cbn [map zsum fold_right].
+        fold (zsum (map (fun _ : kdisk => 0) W)). rewrite IH. reflexivity.
+      - destruct (Hpart p Hp Lp) as [_ [w0 [Hin0 [Hl0 Hn0]]]].
+        apply (zsum_pick W (parent p) (own p) w0 HndW); [|exact Hn0].
+        unfold W. apply filter_In. auto. }
+  unfold W. rewrite zsum_filter, <- zsum_map_add. apply zsum_map_ext.
+  intros d _. destruct (listed sb d); lia.
+Qed.
+
+Theorem no_double_count sb own parent f l :
+  linear f -> kernel_shaped sb own parent (fun d => f (spec_disk d)) l ->
+  f (disk_sum (map spec_disk (filter (listed sb) l))) = zsum (map own l).
+Proof.
+  intros Hlin Hk. rewrite (linear_sum f _ Hlin), map_map.
+  exact (no_double_count_sum sb own parent (fun d => f (spec_disk d)) l Hk).
+Qed.
+
+Lemma linear_read_bytes : linear read_bytes.
+Proof. split; reflexivity. Qed.
+Lemma linear_write_bytes : linear write_bytes.
+Proof. split; reflexivity. Qed.
+Lemma linear_read_count : linear read_count.
+Proof. split; reflexivity. Qed.
 
 (* ------------------------------------------------ the 2.4 layout: kernel documentation example *)
 Definition hda_24 : kdisk :=
@@ -299,7 +411,7 @@ Theorem disk_l24_refuted :
     k_diskstats l =
       bs "   3     0   39082680 hda 446216 784926 9550688 4382310 424847 312726 5922052 19310380 0 3376340 23705160"
       ++ [10] /\
-    spec_disks true l
+    spec_disks sb true l
     = RDict [(bs "hda", nt_disk (Build_diskstat 446216 424847 (9550688 * 512) (5922052 * 512)
                                                 4382310 19310380 784926 312726 3376340))] /\
     disk_io_counters true sb (ProcDiskstats (k_diskstats l))
@@ -310,17 +422,35 @@ Proof.
 Qed.
 
 (* the hypotheses of [disk_exact] are satisfiable: a disk with two partitions, a 7-field line,
-   a name with '/', an 18- and a 20-field line; the partitions are not counted twice *)
+   a name with several '/', a virtual device, 18- and 20-field lines; partitions are not counted twice *)
 Example disk_example :
   let io (a : string) := Build_iostat (bs a) (bs "2") (bs "3") (bs "4") (bs "5") (bs "6") (bs "7") (bs "8") (bs "9") (bs "10") (bs "11") in
   let l := [ Build_kdisk (bs "8") (bs "0") (bs "sda") true (LFull (io "100"%string) []);
              Build_kdisk (bs "8") (bs "1") (bs "sda1") false (LFull (io "60"%string) []);
              Build_kdisk (bs "8") (bs "2") (bs "sda2") false (LPart (bs "40") (bs "1") (bs "1") (bs "1"));
-             Build_kdisk (bs "104") (bs "0") (bs "cciss/c0d0") true
+             Build_kdisk (bs "104") (bs "0") (bs "rd/c0/d0") true
                          (LFull (io "18446744073709551615"%string) [bs "1"; bs "2"; bs "3"; bs "4"]);
-             Build_kdisk (bs "259") (bs "0") (bs "nvme0n1") true
+             Build_kdisk (bs "7") (bs "0") (bs "loop0") true
                          (LFull (io "1"%string) [bs "1"; bs "2"; bs "3"; bs "4"; bs "5"; bs "6"]) ] in
   wf_disks l = true /\ no_l24 l = true /\ sysblock_agrees (sysblock_of l) l = true /\
+  sysblock_of l (bs "rd!c0!d0") = true /\
   disk_io_counters false (sysblock_of l) (ProcDiskstats (k_diskstats l))
   = Val (RTuple (nt_disk (Build_diskstat 18446744073709551716 15 (9 * 512) (21 * 512) 12 24 6 18 30))).
-Proof. vm_compute. auto. Qed.
+Proof. vm_compute. auto 10. Qed.
+
+(* kernel_shaped is satisfiable: sda (own 7) with partitions sda1 (own 60) and sda2 (own 40) *)
+Example kernel_shaped_example :
+  let io (a : string) := Build_iostat (bs "0") (bs "0") (bs a) (bs "0") (bs "0") (bs "0") (bs "0") (bs "0") (bs "0") (bs "0") (bs "0") in
+  let sda := Build_kdisk (bs "8") (bs "0") (bs "sda") true (LFull (io "107"%string) []) in
+  let sda1 := Build_kdisk (bs "8") (bs "1") (bs "sda1") false (LFull (io "60"%string) []) in
+  let sda2 := Build_kdisk (bs "8") (bs "2") (bs "sda2") false (LFull (io "40"%string) []) in
+  let l := [sda; sda1; sda2] in
+  let own d := (if beqb (d_name d) (bs "sda") then 7 else if beqb (d_name d) (bs "sda1") then 60 else 40) * 512 in
+  kernel_shaped (sysblock_of l) own (fun _ => bs "sda") (fun d => read_bytes (spec_disk d)) l.
+Proof.
+  cbv zeta. split; [|split].
+  - cbn [map d_name]. repeat constructor; cbn [In]; intros H; repeat destruct H as [H|H]; try discriminate; auto.
+  - intros p [<-|[<-|[<-|[]]]]; vm_compute; intros H; try discriminate; split; try reflexivity;
+      eexists; (split; [left; reflexivity|split; reflexivity]).
+  - intros w [<-|[<-|[<-|[]]]]; vm_compute; intros H; try discriminate; reflexivity.
+Qed.
